@@ -193,6 +193,7 @@ Inductive op :=
 | OTick (now : Z) (ts : list tele) (rc : list bool)    (* handle_housekeeping *)
 | OPkt (i : nat) (b : list Z) (now : Z)                 (* handle_uplink_packet on link i *)
 | OMark (i : nat)                                      (* mark_for_recovery (send failure) *)
+| OSetTimeout (i : nat) (t : Z)                        (* the run-time liveness window reaches link i (conn_timeout_ms := t) *)
 | OEnd.                                                (* no-op: full dump requested *)
 
 Definition state := list link.
@@ -214,8 +215,15 @@ Fixpoint upd {A} (ls : list A) (i : nat) (f : A -> A) : list A :=
   | l :: t, S k => l :: upd t k f
   end.
 
+Definition set_timeout (l : link) (t : Z) : link :=
+  {| l_id := l_id l; l_connected := l_connected l; l_last_recv := l_last_recv l;
+     l_last_ka := l_last_ka l; l_proof := l_proof l; l_timeout := t;
+     l_estab := l_estab l; l_grace := l_grace l; l_attempt := l_attempt l; l_fail := l_fail l;
+     l_rtt := l_rtt l |}.
+
 Definition step (s : state) (o : op) : state :=
   match o with
+  | OSetTimeout i t => upd s i (fun l => set_timeout l t)
   | OTick now ts rc => map snd (tick_links s ts rc now)
   | OPkt i b now => upd s i (fun l => pkt_link l b now)
   | OMark i => upd s i mark_for_recovery
